@@ -76,6 +76,9 @@ func scenario(k int, r *Rng, p GenParams) (dis []DInput, ops []Op, det bool) {
 		g := Pick(r, []uint32{2, 3, 5})
 		dis = []DInput{obj(r, DataGeneric, small(), g, 0), obj(r, DataGenericJSON, small(), 1, 0),
 			obj(r, DataLabels, small(), 1, Pick(r, []int{0, 64})), obj(r, DataEnvVar, small(), 1, 0)}
+		// links: to group 1, to object 1 (the probe queries ask for link numbers no field can carry)
+		dis[2].Link, dis[2].LinkID = LGroup, 1
+		dis[3].Link, dis[3].LinkID = LObject, 1
 		ops = []Op{
 			delID(r, p, 2, false, false),
 			add(r, p, obj(r, DataGeneric, small(), g, 0)), // ID 2 again, after object 4
@@ -164,7 +167,10 @@ func scenario(k int, r *Rng, p GenParams) (dis []DInput, ops []Op, det bool) {
 			}
 			ops = append(ops, add(r, p, d))
 		}
-		ops = append(ops, Op{Kind: OpReload}, delSel(r, p, Selector{Kind: SType, N: DataOCIBlob}, true, false))
+		// the digest selector is an equality: a proper prefix of a stored digest selects nothing
+		pre := Sha256Hex(dis[0].Content)
+		ops = append(ops, delSel(r, p, Selector{Kind: SOCIDigest, Alg: "sha256", Hex: pre[:Pick(r, []int{0, 8, 63})]}, false, false),
+			Op{Kind: OpReload}, delSel(r, p, Selector{Kind: SType, N: DataOCIBlob}, true, false))
 	}
 	return dis, ops, det
 }
